@@ -388,6 +388,15 @@ class RaggedRun:
         return len(out.violations) == before
 
     # ------------------------------------------------------------ steps
+    def _reopen(self, tag):
+        import darr
+        try:
+            self.ra = darr.RaggedArray(self.path, accessmode=self.mode)
+            return True
+        except Exception as e:
+            self.out.viol('fresh-open-raised', tag, f'step {self.stepno}: {type(e).__name__}: {e}')
+            return False
+
     def expect_ok(self, tag, fn):
         try:
             fn()
@@ -523,7 +532,8 @@ class RaggedRun:
                 self.m = m[:int(idx)]
                 self.nmut += 1
                 if by != 'obj':
-                    self.ra = darr.RaggedArray(self.path, accessmode=self.mode)
+                    if not self._reopen(tag):
+                        return False
                 return self.observe(tag)
             if not ok:
                 self.out.cls('rejected-call')
@@ -537,7 +547,8 @@ class RaggedRun:
             self.m = newm
             self.nmut += 1
             if by != 'obj':
-                self.ra = darr.RaggedArray(self.path, accessmode=self.mode)
+                if not self._reopen(tag):
+                    return False
             return self.observe(tag)
         if o == 'mode':
             self.kinds.append('mode')
